@@ -160,7 +160,7 @@ def generate(st):
     sw, g, f = st.swarm, st.gen, st.fault
     cfg = {
         'n_keys': sw.choice([1, 1, 2, 3]),
-        'n_ops': sw.choice([10, 20, 30, 50]),
+        'n_ops': sw.choice([10, 20, 30, 50] + ([90, 140] if getattr(st, 'deep', False) else [])),
         'p_rereg': sw.choice([0.0, 0.05, 0.15, 0.3]),
         'queries': sorted(sw.sample(QUERIES, sw.randint(3, len(QUERIES)))),
         'n_small': sw.random() < 0.5,
